@@ -30,11 +30,23 @@ struct Params {
     iterations: u32,
     seed: u64,
     via_template: bool,
+    /// a screening evaluation (another evaluator, identifier A, constant value) runs before the real evaluation step
+    screening: bool,
+    /// an ant system (ants, iterations) run to completion inside a scope at the end of every pass of the outer colony
+    nested: Option<(usize, u32)>,
+}
+
+#[derive(Default)]
+struct Recs {
+    by_depth: std::collections::BTreeMap<usize, Rec>,
+    closed: Vec<Rec>,
 }
 
 #[derive(Default)]
 struct Rec {
     matrix_before: Vec<Vec<f64>>,
+    /// the trails as the last update of this colony left them: nothing else may change them
+    matrix_after_last_update: Option<Vec<Vec<f64>>>,
     generations: u64,
     updates: u64,
     tours_checked: u64,
@@ -48,11 +60,41 @@ fn matrix(state: &State<P>, n: usize) -> Vec<Vec<f64>> {
     (0..n).map(|i| pm[i].to_vec()).collect()
 }
 
-fn observe(rec: &Mutex<Rec>, prm: &Params, ev: StepEvent<'_, P>, state: &State<P>) {
+/// Parameters of the colony nested in the scope (an ant system on the same instance).
+fn inner_params(prm: &Params) -> Params {
+    let (ants, iterations) = prm.nested.unwrap_or((1, 1));
+    Params { ants, iterations, bounds: None, evaporation: 0.5, default_pheromones: 7.0, alpha: 1.0, beta: 1.0, decay: 3.0, nested: None, screening: false, ..prm.clone() }
+}
+
+fn observe(recs: &Mutex<Recs>, outer_prm: &Params, ev: StepEvent<'_, P>, problem: &P, state: &State<P>) {
     let StepEvent::BlockChild { before, component, .. } = ev else { return };
     let name = mv::sniff::name_of(component);
+    let depth = mv::observe::scope_depth(state);
+    let inner;
+    let prm = if depth > 1 {
+        inner = inner_params(outer_prm);
+        &inner
+    } else {
+        outer_prm
+    };
     let n = prm.n;
-    let mut r = rec.lock().unwrap();
+    let mut all = recs.lock().unwrap();
+    let gone: Vec<usize> = all.by_depth.keys().copied().filter(|d| *d > depth).collect();
+    for d in gone {
+        let r = all.by_depth.remove(&d).unwrap();
+        all.closed.push(r);
+    }
+    let r = all.by_depth.entry(depth).or_insert_with(|| Rec { min_trail_seen: f64::INFINITY, max_trail_seen: 0.0, ..Default::default() });
+    // between two updates of a colony its trails belong to it alone
+    if before && matches!(name.as_str(), "AcoGeneration" | "AsPheromoneUpdate" | "MinMaxPheromoneUpdate") {
+        if let Some(last) = &r.matrix_after_last_update {
+            let now = matrix(state, n);
+            if now.iter().flatten().map(|x| x.to_bits()).ne(last.iter().flatten().map(|x| x.to_bits())) {
+                r.violations.push(("trails:changed-between-two-updates-of-the-colony".into(), format!("before {name}: the pheromone matrix differs from what the colony's last update left")));
+                r.matrix_after_last_update = None;
+            }
+        }
+    }
     match name.as_str() {
         "AcoGeneration" if !before => {
             r.generations += 1;
@@ -101,9 +143,11 @@ fn observe(rec: &Mutex<Rec>, prm: &Params, ev: StepEvent<'_, P>, state: &State<P
             let rho = prm.evaporation;
             // expected matrix: evaporate every trail, then deposit on the consecutive-city edges of the rewarded tours
             let mut want: Vec<Vec<f64>> = old.iter().map(|row| row.iter().map(|x| x * (1.0 - rho)).collect()).collect();
+            // tour lengths are recomputed from the distance matrix, not read from the individuals
+            let len = |i: &mahf::Individual<P>| problem.f_pure(i.solution());
             let rewarded: Vec<(&Vec<usize>, f64)> = match prm.bounds {
-                None => cur.iter().skip(1).map(|i| (i.solution(), prm.decay / i.objective().value())).collect(),
-                Some(_) => cur.iter().skip(1).min_by(|a, b| a.objective().value().partial_cmp(&b.objective().value()).unwrap()).map(|i| vec![(i.solution(), 1.0 / i.objective().value())]).unwrap_or_default(),
+                None => cur.iter().skip(1).map(|i| (i.solution(), prm.decay / len(i))).collect(),
+                Some(_) => cur.iter().skip(1).min_by(|a, b| len(a).partial_cmp(&len(b)).unwrap()).map(|i| vec![(i.solution(), 1.0 / len(i))]).unwrap_or_default(),
             };
             for (tour, delta) in &rewarded {
                 for w in tour.windows(2) {
@@ -120,8 +164,8 @@ fn observe(rec: &Mutex<Rec>, prm: &Params, ev: StepEvent<'_, P>, state: &State<P
             }
             // ties between equally short best tours: the max-min update may reward another one of the same length
             let tie_ambiguous = prm.bounds.is_some() && {
-                let best = cur.iter().skip(1).map(|i| i.objective().value()).fold(f64::INFINITY, f64::min);
-                cur.iter().skip(1).filter(|i| i.objective().value() == best).map(|i| i.solution()).collect::<std::collections::HashSet<_>>().len() > 1
+                let best = cur.iter().skip(1).map(len).fold(f64::INFINITY, f64::min);
+                cur.iter().skip(1).filter(|i| len(i) == best).map(|i| i.solution()).collect::<std::collections::HashSet<_>>().len() > 1
             };
             let which = if prm.bounds.is_some() { "max-min" } else { "ant-system" };
             let mut bad: Option<(String, String)> = None;
@@ -157,8 +201,29 @@ fn observe(rec: &Mutex<Rec>, prm: &Params, ev: StepEvent<'_, P>, state: &State<P
             if let Some(b) = bad {
                 r.violations.push(b);
             }
+            r.matrix_after_last_update = Some(new);
         }
         _ => {}
+    }
+}
+
+/// Screening stage: another evaluator, registered under identifier A, that gives every tour the same value.
+struct Screen;
+impl mahf::problems::Evaluate for Screen {
+    type Problem = P;
+    fn evaluate(&mut self, _problem: &P, _state: &mut State<P>, individuals: &mut [mahf::Individual<P>]) {
+        for i in individuals {
+            i.evaluate_with(|_| 1.0f64.try_into().unwrap());
+        }
+    }
+}
+
+#[derive(Clone, serde::Serialize)]
+struct PopTop;
+impl mahf::Component<P> for PopTop {
+    fn execute(&self, _problem: &P, state: &mut State<P>) -> mahf::ExecResult<()> {
+        state.populations_mut().pop();
+        Ok(())
     }
 }
 
@@ -174,10 +239,28 @@ fn build(prm: &Params) -> Result<Configuration<P>, String> {
         None => generative::AsPheromoneUpdate::new(prm.evaporation, prm.decay),
         Some((mx, mn)) => generative::MinMaxPheromoneUpdate::new(prm.evaporation, mx, mn).map_err(|e| e.to_string())?,
     };
+    let nested: Option<Box<dyn mahf::Component<P>>> = prm.nested.map(|_| {
+        let ip = inner_params(prm);
+        mahf::components::Scope::new(vec![
+            initialization::Empty::new(),
+            mahf::components::Loop::new(
+                LessThanN::iterations(ip.iterations),
+                vec![
+                    generative::AcoGeneration::new(ip.ants, ip.alpha, ip.beta, ip.default_pheromones),
+                    mahf::components::evaluation::PopulationEvaluator::new(),
+                    generative::AsPheromoneUpdate::new(ip.evaporation, ip.decay),
+                ],
+            ),
+            Box::new(PopTop) as Box<dyn mahf::Component<P>>,
+        ])
+    });
+    let screening = prm.screening;
     Ok(Configuration::builder()
         .do_(initialization::Empty::new())
         .while_(LessThanN::iterations(prm.iterations), |b| {
-            b.do_(generative::AcoGeneration::new(prm.ants, prm.alpha, prm.beta, prm.default_pheromones)).evaluate().update_best_individual().do_(update)
+            let b = b.do_(generative::AcoGeneration::new(prm.ants, prm.alpha, prm.beta, prm.default_pheromones));
+            let b = if screening { b.evaluate_with::<mahf::identifier::A>() } else { b };
+            b.evaluate().update_best_individual().do_(update).do_if_some_(nested)
         })
         .build())
 }
@@ -191,11 +274,23 @@ fn run(rep: &Reporter, prm: &Params) {
             return;
         }
     };
-    let rec = Mutex::new(Rec { min_trail_seen: f64::INFINITY, max_trail_seen: 0.0, ..Default::default() });
-    let res = run_observed(&cfg, &problem, prm.seed, false, None, |ev, _p, s| observe(&rec, prm, ev, s));
+    let rec = Mutex::new(Recs::default());
+    let res = mv::observe::run_observed_prepared(&cfg, &problem, prm.seed, false, None, |state| state.insert_evaluator_as::<mahf::identifier::A>(Screen), |ev, p, s| observe(&rec, prm, ev, p, s));
     rep.case();
     rep.nontrivial(hash_of(&format!("{prm:?}")));
-    let r = rec.lock().unwrap();
+    let mut all = rec.lock().unwrap();
+    let mut r = Rec { min_trail_seen: f64::INFINITY, max_trail_seen: 0.0, ..Default::default() };
+    let by_depth = std::mem::take(&mut all.by_depth);
+    let closed = std::mem::take(&mut all.closed);
+    rep.count("nested_colony_instances_observed", closed.len() as u64);
+    for part in by_depth.into_values().chain(closed) {
+        r.generations += part.generations;
+        r.updates += part.updates;
+        r.tours_checked += part.tours_checked;
+        r.min_trail_seen = r.min_trail_seen.min(part.min_trail_seen);
+        r.max_trail_seen = r.max_trail_seen.max(part.max_trail_seen);
+        r.violations.extend(part.violations);
+    }
     rep.count("generations_observed", r.generations);
     rep.count("pheromone_updates_observed", r.updates);
     rep.count("tours_checked", r.tours_checked);
@@ -220,7 +315,7 @@ fn run(rep: &Reporter, prm: &Params) {
 
 fn main() {
     let rep = Reporter::from_args("C19");
-    rep.rule("runs of the two ACO templates and of harness-assembled generate/evaluate/update loops over instance sizes 2..10, three distance families (incl. distances spanning 1e-6..1e6), ants 1..8, alpha/beta in {0,1,2,5}, evaporation in {0,.1,.5,.99,1}, default pheromones in {1e-3,.5,1,10}, max-min bounds, up to 200 iterations (reaching very small and saturated trails), seeds; observed at the step-observer hook: after every generation 1+ants tours, each a permutation of all cities starting at 0, the first greedy w.r.t. the matrix; around every pheromone update the whole matrix before/after: expected = evaporate every trail, then deposit decay/length (ant system: every sampled tour; max-min: 1/length on the best sampled tour) symmetrically on exactly the consecutive-city edges, clamp to the bounds for max-min; all off-diagonal trails finite, >= 0 and, for max-min, within [min,max]. distinct_nontrivial = distinct parameter cells");
+    rep.rule("runs of the two ACO templates and of harness-assembled generate/evaluate/update loops over instance sizes 2..10, three distance families (incl. distances spanning 1e-6..1e6), ants 1..8, alpha/beta in {0,1,2,5}, evaporation in {0,.1,.5,.99,1}, default pheromones in {1e-3,.5,1,10}, max-min bounds, up to 200 iterations (reaching very small and saturated trails), seeds; observed at the step-observer hook: after every generation 1+ants tours, each a permutation of all cities starting at 0, the first greedy w.r.t. the matrix; around every pheromone update the whole matrix before/after: expected = evaporate every trail, then deposit decay/length (ant system: every sampled tour; max-min: 1/length on the best sampled tour) symmetrically on exactly the consecutive-city edges, clamp to the bounds for max-min; all off-diagonal trails finite, >= 0 and, for max-min, within [min,max]; tour lengths in the expectation are recomputed from the distance matrix (variants with a screening evaluation stage under another identifier before the real one); between two updates of a colony its trails are bit-identical (variants with a second colony run to completion inside a scope in every pass; records per scope depth). distinct_nontrivial = distinct parameter cells");
     rep.assume("evaporation in [0,1], positive symmetric distances, ants >= 1, min < max pheromones; ties between equally short best tours make the max-min expectation ambiguous and are then only checked for bounds/symmetry");
     let mut rng = SplitMix64::new(rep.seed).fork(0xC19);
     let mut cells = Vec::new();
@@ -240,6 +335,8 @@ fn main() {
             iterations: *rng.pick(&[1u32, 3, 20, 200]),
             seed: rng.below(1 << 40),
             via_template: k % 3 == 0,
+            screening: k % 3 != 0 && rng.chance(0.3),
+            nested: if k % 3 != 0 && rng.chance(0.25) { Some((1 + rng.usize(3), 1 + rng.below(3) as u32)) } else { None },
         });
     }
     std::thread::scope(|s| {
